@@ -35,6 +35,18 @@ CLAIMED = {
   "technique": "Lean 4 proof (case analysis over the decoding pipeline for all inputs) + exhaustive small-domain model-vs-implementation correspondence",
   "design_ref": "4 C20",
  },
+ "C01": {
+  "text": "Lean 4 model of the graph builder as a state machine (load_with_redirect_count, try_load, check_specifier/add_redirect, visit, visit_module, visit_module_dependencies, the deferred/dynamic-branch drain order) tied to /repo by exact differential execution: on every generated world the model and the real build agree on every slot (kind, media type, dependency list with resolutions and dynamic flag, error kind and referrer), every redirect and the exact sequence of loader calls. Proved for every world/state: recorded dependencies are the analysed ones pruned by graph kind, in order (visitDeps_records_source); every loader redirect is recorded, first answer wins; slot keys stay unique (single entry); the media-type/attribute/root/dynamic dispatch is stated outright. The closure clause (nothing unreachable present, nothing reachable absent) is decided on every run by the correspondence plus an independent closure oracle over the world using the public per-module analysis.",
+  "note": "Scope of the model: URL / node: / npm:-without-resolver specifiers; jsr registry paths are covered with C07/C13. Per-module analysis (swc + fill_module_dependencies) is an input of the model obtained from the public parse_module; its own correctness is C08. The closure statement is not yet a Lean theorem (partial): it is checked by correspondence + oracle. Worlds violating the same-type-attribute proviso and inconsistent loaders are used for correspondence only.",
+  "technique": "Lean 4 executable builder model with exact correspondence (slots, redirects, loader-call sequence) + Lean proofs of per-step properties + independent closure oracle",
+  "design_ref": "4 C01",
+ },
+ "C03": {
+  "text": "Lean 4 theorem for every world (arbitrary loader answers: errors, missing, redirect chains/loops/self-redirects, external markers, undecodable/unparsable content) and every option set: a build that finishes has no pending slot (no_pending_after_build), via the invariant 'every pending slot has a queued request' preserved by every step (load, try_load outcome handling, check_specifier, visit_module, the deferred and dynamic-branch drains); each fault kind provably becomes an error entry at the affected specifier carrying the request's referrer. Tied to /repo by exact correspondence on an exhaustive fault enumeration (9 response kinds on every combination of 3-4 entries of two base worlds, 7290 builds) plus fault-heavy generated worlds; implementation-side oracle: termination (loader-call budget + watchdog), no panic, no pending entry, no INTERNAL ERROR in the JSON, error entry per fault, locality against the fault-free build.",
+  "note": "Termination is not a theorem (the model takes fuel; redirect loops are bounded by the loader's limit only operationally): it is checked by budget/watchdog on every build. JSR metadata/registry faults and npm resolution failures are exercised with the registry worlds of C07. Panics inside swc/wasm parsers are observed, not modelled.",
+  "technique": "Lean 4 proof (invariant by induction over builder steps, all fault assignments) + exhaustive fault enumeration with model-vs-implementation correspondence",
+  "design_ref": "4 C03",
+ },
 }
 NOT_APPLICABLE = {}
 ALL = [f"C{i:02d}" for i in range(1, 21)]
